@@ -124,6 +124,11 @@ theorem stepO_acct (s s' : St) (h : Inv s) (ha : Acct s) (hs : stepO s = some s'
     · simp at hs; subst hs; exact acct_same s _ rfl rfl rfl rfl rfl ha
     · simp at hs
   case stuckL => simp at hs
+  case pux e t =>
+    simp only [releaseO, hcfg, code_unlockFence, if_true] at hs
+    split at hs
+    · simp at hs; subst hs; exact acct_same s _ rfl rfl rfl rfl rfl ha
+    · simp at hs
   case pt9 =>
     simp only [releaseO, hcfg, code_unlockFence, if_true] at hs
     split at hs
@@ -279,19 +284,24 @@ theorem ghost_branches_unreachable (s : St) (h : Inv s) :
     omega
 
 /-- a pending inserting `base` store of the owner belongs to put just before its unlock, targets the
-    slot below the logical base, and the slot store it is ordered after (FIFO) carries the same
-    element: when it drains, the slot it exposes holds the element inserted -/
+    slot below the logical base as the owner sees it (`lb + sh`: `sh ≠ 0` only while the shift entry
+    of a re-centring is still buffered in front of it), and the slot store it is ordered after
+    (FIFO) carries the same element: when it drains, the slot it exposes holds the element inserted -/
 theorem owner_baseI (s : St) (h : Inv s) (v : Int) (e : Elem) (hm : Sto.baseI v e ∈ s.bufO) :
-    s.opc = .pt9 ∧ s.lock = .owner ∧ v = s.lb - 1 ∧ viewPtr s.bufO s.ptr v = some e := by
+    s.opc = .pt9 ∧ s.lock = .owner ∧ v = s.lb + s.sh - 1 ∧ viewPtr s.bufO s.ptr v = some e := by
   cases hpc : s.opc
   case pt9 =>
     have hl := h.lockO.2 (by simp [hpc, ownerLocked])
-    rcases (h.pt9 hpc).2 with ⟨e', h1⟩ | ⟨e', h1, h2⟩ | h1
-    · rw [h1] at hm ⊢; simp at hm; obtain ⟨rfl, rfl⟩ := hm; simp [viewPtr, hl]
-    · rw [h1] at hm ⊢; simp at hm; obtain ⟨rfl, rfl⟩ := hm; simp [viewPtr, hl, h2]
-    · rw [h1] at hm; simp at hm
+    rcases h.pt9 hpc with ⟨e', hp⟩ | ⟨hsh, _, _, hI⟩
+    · rcases hp with h1 | ⟨h1, h2⟩ | ⟨h1, h2, h3⟩
+      all_goals (rw [h1] at hm ⊢; simp at hm; obtain ⟨rfl, rfl⟩ := hm; simp [viewPtr, hl])
+    · rw [hsh]; simp only [Int.add_zero]
+      rcases hI with ⟨e', h1⟩ | ⟨e', h1, h2⟩ | h1
+      · rw [h1] at hm ⊢; simp at hm; obtain ⟨rfl, rfl⟩ := hm; simp [viewPtr, hl]
+      · rw [h1] at hm ⊢; simp at hm; obtain ⟨rfl, rfl⟩ := hm; simp [viewPtr, hl, h2]
+      · rw [h1] at hm; simp at hm
   all_goals (exfalso; cases h; simp only [hpc, ownerLocked, carry, resetting, ownerFlight] at *)
-  all_goals grind [CarryShape, Pu2Shape, PofShape, Po6Shape, Po8Shape, Po9Shape, InsShape]
+  all_goals grind [CarryShape, Pu2Shape, PofShape, Po6Shape, Po8Shape, Po9Shape, InsShape, Rc1Shape, Rc2Shape, RcPre, RcShape]
 
 /-- the same for a passer: its pending inserting `base` store belongs to trypass just before its unlock -/
 theorem thief_baseI (s : St) (h : Inv s) (p : Pid) (v : Int) (e : Elem) (hm : Sto.baseI v e ∈ s.bufT p) :
@@ -327,5 +337,47 @@ theorem base_tests_logical (s : St) (h : Inv s) :
     have htr := h.trF p hl (by simp [hpc, notTrans])
     have := h.lbase (thief_not_resetting s h p hl)
     rw [h.tbufE p (by simp [hpc, mayBuf]), viewBase_nil, this]; simp [htr]
+
+/-- the two `abort()`s ("Runqueue overflow") are reached only on a full deque, holding the lock with
+    an empty buffer -/
+theorem stuck_only_when_full (s : St) (h : Inv s) (hpc : s.opc = .stuck ∨ s.opc = .stuckL) :
+    (s.A.length : Int) = s.size ∧ s.lb = 0 ∧ s.lt = s.size ∧ s.top = s.size ∧ s.base = 0 ∧
+    s.lock = .owner ∧ s.bufO = [] := by
+  have hlen := h.len
+  have htr : s.lock = .owner → s.tr = false := by
+    intro hl
+    cases ht : s.tr with
+    | false => rfl
+    | true => obtain ⟨q, hq⟩ := h.trn ht; rw [hl] at hq; cases hq
+  rcases hpc with hpc | hpc
+  · obtain ⟨h1, h2, h3, h4⟩ := h.stuck hpc
+    have hl := h.lockO.2 (by simp [hpc, ownerLocked])
+    have hb := h.lbase (by simp [hpc, resetting])
+    simp [htr hl] at hb
+    exact ⟨by omega, h4, h3, by omega, by omega, hl, h1⟩
+  · obtain ⟨h1, h2, h3, h4⟩ := h.stuckL hpc
+    have hl := h.lockO.2 (by simp [hpc, ownerLocked])
+    have hb := h.lbase (by simp [hpc, resetting])
+    simp [htr hl] at hb
+    exact ⟨by omega, h3, h4, by omega, by omega, hl, h1⟩
+
+/-- the overflow tests of the two re-centring paths read the logical values: push's `base == 0` at
+    logical top `size`, put's `top == size` at logical base 0 -/
+theorem overflow_tests_logical (s : St) (h : Inv s) :
+    (∀ e, s.opc = .pub e → viewBase s.bufO s.base = s.lb ∧ s.lt = s.size) ∧
+    (∀ e, s.opc = .pt2 e → viewTop s.bufO s.top = s.lt ∧ s.lb = 0) := by
+  refine ⟨?_, ?_⟩
+  · intro e hpc
+    obtain ⟨h1, h2, h3⟩ := h.pub e hpc
+    have hl := h.lockO.2 (by simp [hpc, ownerLocked])
+    have htr : s.tr = false := by
+      cases ht : s.tr with
+      | false => rfl
+      | true => obtain ⟨q, hq⟩ := h.trn ht; rw [hl] at hq; cases hq
+    have := h.lbase (by simp [hpc, resetting])
+    rw [h1, viewBase_nil, this]; simp [htr, h3]
+  · intro e hpc
+    obtain ⟨h1, h2, h3⟩ := h.pt2 e hpc
+    rw [h1, viewTop_nil]; exact ⟨h2, h3⟩
 
 end MythVerif.WsqTso
